@@ -508,6 +508,71 @@ pub fn record(args: &Args) {
 	println!("SUMMARY {}", json!({"events": lines.len(), "samples": lines.iter().skip(3).take(2).collect::<Vec<_>>()}));
 }
 
+/// deep expanded spines (MC_Deep): the closed form (line i indented by i units) was validated by TLC for small depths
+pub fn replay_deepprint(rep: &mut Report, rec: &J) {
+	rep.count("deep_vectors");
+	let depth = rec["depth"].as_u64().unwrap() as usize;
+	let arr = rec["kind"] == "arr";
+	let o = options(&rec["o"]);
+	let unit: String = match (rec["unit"][0].as_str().unwrap(), rec["unit"][1].as_u64().unwrap() as usize) {
+		("spaces", n) => " ".repeat(n),
+		(_, n) => "\t".repeat(n),
+	};
+	let keypart = cps_to_string(&rec["keypart"]).unwrap();
+	let (open, close) = if arr { ('[', ']') } else { ('{', '}') };
+	// the value (built bottom-up, iteratively) and the closed form
+	let mut v = Value::Number(1u8.into());
+	for _ in 0..depth {
+		v = if arr { Value::Array(vec![v]) } else { Value::Object(vec![json_syntax::object::Entry::new("k".into(), v)].into_iter().collect()) };
+	}
+	let mut exp = String::new();
+	for i in 0..depth {
+		for _ in 0..i {
+			exp.push_str(&unit);
+		}
+		if i > 0 {
+			exp.push_str(&keypart);
+		}
+		exp.push(open);
+		exp.push('\n');
+	}
+	for _ in 0..depth {
+		exp.push_str(&unit);
+	}
+	if depth > 0 {
+		exp.push_str(&keypart);
+	}
+	exp.push('1');
+	for i in (0..depth).rev() {
+		exp.push('\n');
+		for _ in 0..i {
+			exp.push_str(&unit);
+		}
+		exp.push(close);
+	}
+	let ctx = json!({"kind": rec["kind"], "unit": rec["unit"], "depth": depth, "expected_len": exp.len(), "vector": rec});
+	rep.count("print_calls");
+	match guarded(|| v.print_with(o.clone()).to_string()) {
+		Err(p) => {
+			rep.mismatch("C13.panic", json!({"what": "printer panicked on a deep expanded value", "input": ctx, "panic": p}));
+			rep.mismatch("C04.panic", json!({"what": "printer panicked on a deep expanded value", "input": ctx, "panic": p}));
+		}
+		Ok(got) => {
+			if got != exp {
+				let at = got.bytes().zip(exp.bytes()).position(|(a, b)| a != b).unwrap_or(got.len().min(exp.len()));
+				rep.mismatch("C13.deep", json!({"what": "printed text of a deep expanded value differs from the closed form validated by the specification", "input": ctx, "printed_len": got.len(), "first_difference_at": at}));
+			}
+			match guarded(|| Value::parse_str(&got)) {
+				Ok(Ok((back, _))) if back == v => std::mem::forget(back),
+				_ => rep.mismatch("C04.deep", json!({"what": "printed deep value does not parse back to itself", "input": ctx})),
+			}
+		}
+	}
+	// dropping a deep value is recursive (outside the properties): leak it
+	std::mem::forget(v);
+	rep.note_distinct(hash_of(&(rec["kind"].to_string(), rec["unit"].to_string(), depth)));
+}
+
 /// wide values: the closed form head + unit^(n-1) + tail was validated by TLC for small n
 pub fn replay_wide(rep: &mut Report, rec: &J) {
 	rep.count("wide_vectors");
